@@ -81,6 +81,7 @@ func TestWorker(t *testing.T) {
 				break
 			}
 			seed := runSeed(job.BaseSeed, job.Property, k)
+			emit(map[string]interface{}{"starting": seed})
 			res := runOne(t, &runSpec{Property: job.Property, Seed: seed, Thorough: job.Thorough, KeepSteps: job.KeepSteps || k < 2})
 			emit(res)
 			n++
